@@ -123,6 +123,9 @@ def judge_refuse(ctx, case):
             r = node.ckd(index=i)
         elif via == "derive_path":
             r = node.derive_path(index_list=list(case["prefix"]) + [i])
+        elif via == "generate_children_straddle":
+            r = node.generate_children(interval=(H - case.get("below", 1), i + 1))
+            r = "list of %d nodes" % len(r)
         else:
             r = node.generate_children(interval=(i, i + 1))
         ok, obs, outcome = False, bridge.node_obs(r) if hasattr(r, "key") else r, "returned"
@@ -341,7 +344,10 @@ def run(ctx):
             else:
                 case["index"] = rnd.randrange(H, 2 * H)
                 case["itag"] = "random"
-            case["via"] = rnd.choice(["ckd", "ckd", "derive_path", "generate_children"])
+            case["via"] = rnd.choice(["ckd", "ckd", "derive_path", "generate_children", "generate_children_straddle"])
+            if case["via"] == "generate_children_straddle":
+                case["index"] = H + rnd.randrange(0, 3)
+                case["below"] = rnd.randrange(1, 4)
             if case["via"] == "derive_path":
                 L = rnd.randrange(0, 3)
                 case["depth"] = min(case["depth"], 250)
